@@ -112,6 +112,7 @@ Proof.
     unfold good, count; cbn. repeat split; auto; lia.
   - (* Mutate *) inversion E; subst; clear E. cbn. intros [Hp Hd].
     unfold good, sent, count; cbn. repeat split; auto; lia.
+  - (* TakeFail *) discriminate.
 Qed.
 
 Lemma step_run_beh : forall b m m' es oc, run_beh b m = (m', es, oc) -> step m m' es.
@@ -414,22 +415,37 @@ Proof. intros. unfold strip_exc. apply filter_app. Qed.
 
 Lemma strip_exc_cons_exc : forall e l, is_exc e = true -> strip_exc (e :: l) = strip_exc l.
 Proof. intros e l H. unfold strip_exc. cbn. rewrite H. reflexivity. Qed.
+Lemma strip_exc_cons : forall e l, strip_exc (e :: l) = strip_exc [e] ++ strip_exc l.
+Proof. intros. change (e :: l) with ([e] ++ l). apply strip_exc_app. Qed.
 
 Definition oc_rel (o1 o2 : outcome) : Prop := o2 = o1 \/ (o1 = Raised /\ o2 = Returned false).
 
 Lemma run_beh_calm : forall b m m1 e1 o1, run_beh b m = (m1, e1, o1) ->
-  exists o2, run_beh (calm b) m = (m1, e1, o2) /\ oc_rel o1 o2.
+  exists e2 o2, run_beh (calm b) m = (m1, e2, o2) /\ strip_exc e2 = strip_exc e1 /\ oc_rel o1 o2.
 Proof.
-  induction b as [r| |c o k IH]; intros m m1 e1 o1 H; cbn in *.
-  - eexists; split; [exact H|]. left; reflexivity.
-  - inversion H; subst. eexists; split; [reflexivity|]. right; auto.
-  - destruct (do_op o m) as [[m' es]|].
-    + destruct (run_beh k m') as [[m2 e2] oc2] eqn:R. inversion H; subst; clear H.
-      destruct (IH _ _ _ _ R) as (o2 & R2 & Ho). rewrite R2. eexists; split; [reflexivity|exact Ho].
-    + destruct c.
+  induction b as [r| |c o k IH]; intros m m1 e1 o1 H.
+  - cbn in *. eexists _, _; split; [exact H|]. split; [reflexivity|left; reflexivity].
+  - cbn in *. inversion H; subst. eexists _, _; split; [reflexivity|]. split; [reflexivity|right; auto].
+  - assert (G : o = TakeFail \/ (o <> TakeFail /\ calm (Act c o k) = Act c o (calm k))).
+    { destruct o; auto; right; split; try discriminate; reflexivity. }
+    destruct G as [->|[Ho G]].
+    + (* a failing take *) cbn in H. cbn [calm]. destruct c.
       * destruct (run_beh k m) as [[m2 e2] oc2] eqn:R. inversion H; subst; clear H.
-        destruct (IH _ _ _ _ R) as (o2 & R2 & Ho). rewrite R2. eexists; split; [reflexivity|exact Ho].
-      * inversion H; subst. eexists; split; [reflexivity|]. left; reflexivity.
+        destruct (IH _ _ _ _ R) as (e3 & o3 & R3 & S3 & O3).
+        eexists _, _; split; [exact R3|]. split; [|exact O3].
+        rewrite (strip_exc_cons (EOp TakeFail false)). exact S3.
+      * inversion H; subst; clear H. cbn. eexists _, _; split; [reflexivity|]. split; [reflexivity|right; auto].
+    + rewrite G. cbn in *. destruct (do_op o m) as [[m' es]|].
+      * destruct (run_beh k m') as [[m2 e2] oc2] eqn:R. inversion H; subst; clear H.
+        destruct (IH _ _ _ _ R) as (e3 & o3 & R3 & S3 & O3). rewrite R3.
+        eexists _, _; split; [reflexivity|]. split; [|exact O3].
+        rewrite !strip_exc_app, (strip_exc_cons _ e3), (strip_exc_cons _ e2), S3. reflexivity.
+      * destruct c.
+        -- destruct (run_beh k m) as [[m2 e2] oc2] eqn:R. inversion H; subst; clear H.
+           destruct (IH _ _ _ _ R) as (e3 & o3 & R3 & S3 & O3). rewrite R3.
+           eexists _, _; split; [reflexivity|]. split; [|exact O3].
+           rewrite (strip_exc_cons _ e3), (strip_exc_cons _ e2), S3. reflexivity.
+        -- inversion H; subst. eexists _, _; split; [reflexivity|]. split; [reflexivity|left; reflexivity].
 Qed.
 
 Lemma hook_at_calm : forall p hs, hook_at p (calm_hs hs) = option_map calm (hook_at p hs).
@@ -446,12 +462,15 @@ Lemma try_call_calm : forall p mi si hs m m1 e1 r, try_call p mi si hs m = (m1, 
   exists e2, try_call p mi si (calm_hs hs) m = (m1, e2, r) /\ strip_exc e2 = strip_exc e1.
 Proof.
   intros p mi si hs m m1 e1 r H. unfold try_call in *. rewrite hook_at_calm.
-  destruct (hook_at p hs) as [b|]; cbn.
+  destruct (hook_at p hs) as [b|]; cbn [option_map].
   - destruct (run_beh b m) as [[m' es] oc] eqn:R.
-    destruct (run_beh_calm _ _ _ _ _ R) as (o2 & R2 & [Ho|[Ho1 Ho2]]); rewrite R2; subst.
-    + eexists; split; [exact H|reflexivity].
+    destruct (run_beh_calm _ _ _ _ _ R) as (e2 & o2 & R2 & S2 & [Ho|[Ho1 Ho2]]); rewrite R2; subst.
+    + destruct oc; inversion H; subst; (eexists; split; [reflexivity|]).
+      * rewrite (strip_exc_cons _ e2), (strip_exc_cons _ es), S2. reflexivity.
+      * rewrite (strip_exc_cons _ (e2 ++ _)), (strip_exc_cons _ (es ++ _)), !strip_exc_app, S2. reflexivity.
     + inversion H; subst. eexists; split; [reflexivity|].
-      cbn. destruct p; cbn; rewrite strip_exc_app; cbn; rewrite app_nil_r; reflexivity.
+      rewrite (strip_exc_cons _ e2), (strip_exc_cons _ (es ++ _)), !strip_exc_app, S2.
+      cbn. rewrite app_nil_r. reflexivity.
   - eexists; split; [exact H|reflexivity].
 Qed.
 
@@ -508,19 +527,21 @@ Lemma notify_calm : forall h c snap cur m cur' m' es ab,
 Proof.
   induction snap as [|[sid os] t IH]; intros cur m cur' m' es ab H; cbn in *.
   - eexists; split; [exact H|reflexivity].
-  - rewrite lookup_calm. destruct (lookup sid c) as [p b]. cbn. destruct p.
+  - rewrite lookup_calm. destruct (lookup sid c) as [p b]. cbn [fst snd]. destruct p.
     + destruct (run_beh b m) as [[m1 e1] oc] eqn:R.
-      destruct (run_beh_calm _ _ _ _ _ R) as (o2 & R2 & Ho). rewrite R2.
+      destruct (run_beh_calm _ _ _ _ _ R) as (e2 & o2 & R2 & S2 & Ho). rewrite R2.
       destruct Ho as [Ho|[Ho1 Ho2]]; subst.
       * match type of H with (let '(cur2, exc) := ?X in _) = _ => destruct X as [cur2 exc] eqn:EX end.
         destruct (notify h c t cur2 m1) as [[[cur3 m3] es3] ab3] eqn:N. inversion H; subst; clear H.
         destruct (IH _ _ _ _ _ _ N) as (es4 & N4 & S4). rewrite N4.
-        eexists; split; [reflexivity|]. cbn. f_equal. rewrite !strip_exc_app, S4. reflexivity.
+        eexists; split; [reflexivity|].
+        rewrite (strip_exc_cons _ (e2 ++ _)), (strip_exc_cons _ (e1 ++ _)), !strip_exc_app, S2, S4. reflexivity.
       * cbn in H.
         destruct (notify h c t (if os then unsub sid cur else cur) m1) as [[[cur3 m3] es3] ab3] eqn:N.
         inversion H; subst; clear H.
         destruct (IH _ _ _ _ _ _ N) as (es4 & N4 & S4). rewrite N4.
-        eexists; split; [reflexivity|]. cbn. f_equal. rewrite !strip_exc_app, S4. reflexivity.
+        eexists; split; [reflexivity|].
+        rewrite (strip_exc_cons _ (e2 ++ _)), (strip_exc_cons _ (e1 ++ _)), !strip_exc_app, S2, S4. reflexivity.
     + eapply IH; eauto.
     + eexists; split; [exact H|reflexivity].
 Qed.
@@ -623,6 +644,7 @@ Proof.
     apply send_ok_finalizes in S. destruct S as (_ & _ & _ & Hd & Hq & _). split; congruence.
   - inversion E; subst. split; assumption.
   - inversion E; subst. split; assumption.
+  - discriminate.
 Qed.
 
 Lemma run_beh_noclaim : forall b m m' es oc, beh_noclaim b = true ->
